@@ -16,17 +16,19 @@ def main():
     m = json.load(open(os.path.join(VERIF, 'MANIFEST.json')))
     claimed = [c['property_id'] for c in m['checks']]
     print('### Claimed properties (from MANIFEST.json and evidence/)\n')
-    print('| property | theorems proved | quick-tier evaluations | distinct non-trivial | exhaustive scope | wall (s) |')
-    print('|---|---|---|---|---|---|')
+    print('| property | theorems proved | quick-tier evaluations | distinct non-trivial | exhaustive scope | wall (s) | anchored-function lines executed by impl() |')
+    print('|---|---|---|---|---|---|---|')
     for pid in claimed:
         ev = os.path.join(VERIF, 'evidence', pid + '.json')
         if os.path.exists(ev):
             e = json.load(open(ev))
             c = e['coverage']
-            print('| %s | %d/%d | %d (%s) | %d | %s | %.0f |' % (pid, c['discharged'], c['obligations'], c['evaluations'], e['tier'],
-                                                             c['distinct_nontrivial'], 'yes' if c.get('exhaustive') else 'no', e['wall_s']))
+            lc = c.get('impl_line_coverage') or {}
+            lcs = '%s / %s (%s %%)' % (lc.get('anchored_functions_lines_executed'), lc.get('anchored_functions_lines'), lc.get('percent')) if lc.get('anchored_functions_lines') else 'not measured'
+            print('| %s | %d/%d | %d (%s) | %d | %s | %.0f | %s |' % (pid, c['discharged'], c['obligations'], c['evaluations'], e['tier'],
+                                                             c['distinct_nontrivial'], 'yes' if c.get('exhaustive') else 'no', e['wall_s'], lcs))
         else:
-            print('| %s | (no evidence file) | | | | |' % pid)
+            print('| %s | (no evidence file) | | | | | |' % pid)
     print('\nNot claimed: ' + ', '.join('%s (%s)' % (n['property_id'], n['reason'][:60]) for n in m.get('not_applicable', [])) + '\n')
     k = json.load(open(os.path.join(VERIF, 'known_findings.json')))
     print('### Defects repaired in /repo (`fix:` commits; from known_findings.json)\n')
